@@ -545,7 +545,7 @@ Definition judge_removal (sy0 sy' : system) (o : json) (now : Z) : bool * list s
         let got := map fst (st_facts (l_state l1)) in
         let got_store := map fst (st_store (l_state l1)) in
         if list_eqb String.eqb expected got && list_eqb String.eqb expected got_store then (false, [])
-        else (true, if is_var id || existsb (fun kv => is_var (fst kv)) (st_facts s0) then ["D14"] else [])
+        else (true, [])   (* D14 is repaired: no id is excused *)
   | _, _ => (false, [])
   end.
 
